@@ -259,6 +259,28 @@ def captured_oracle(t: dict) -> list[str]:
     return msgs
 
 
+def commands_oracle(t: dict) -> list[str]:
+    """C07's statement on one traced run: the command recorded when a prompt closes is the one that was addressed to it
+    (`sent` holds the genuine answers; decoys are recognisable by their text), no decoy is ever executed (its output would show
+    up in the text of the next prompt), and no prompt is closed twice"""
+    genuine: dict = {}
+    for tn, pn, c in t.get('sent', []):
+        genuine.setdefault((tn, pn), []).append(c)
+    msgs = []
+    closed: set = set()
+    for e in t['events']:
+        if e['_type'] == 'OnEndPrompt':
+            k = (e['trace_no'], e['prompt_no'])
+            if k in closed:
+                msgs.append(f'prompt {k} closed twice')
+            closed.add(k)
+            if e['command'] and e['command'] not in genuine.get(k, []):
+                msgs.append(f"prompt {k} closed with {e['command']!r}; addressed to it: {genuine.get(k)}")
+        if e['_type'] == 'OnStartPrompt' and 'DECOY' in (e.get('prompt_text') or ''):
+            msgs.append(f"a decoy command was executed: its output appears in the text of prompt ({e['trace_no']}, {e['prompt_no']})")
+    return msgs
+
+
 def gen_specs(chk: common.Check, nseq: int, nconc: int, with_modules: bool = True) -> list[dict]:
     rng = chk.rng
     specs: list[dict] = []
